@@ -11,7 +11,8 @@ GEN = [('Gen/C27AttrGet.v', c27_scan.generate)]
 TRUSTED = [
     'hand-written model Model/C27Inherit.v of EntityMeta.__init__ (direct bases, _all_bases_, _subclasses_, _root_, diamond rule), Discriminator.code2cls, '
     '_construct_discriminator_criteria_, _parse_row_ class choice, _get_from_identity_map_ class refinement and FuncIsinstanceMonad.call; tied on every run by '
-    'vm_compute comparison with the real EntityMeta / translator on random hierarchies (no translation from source)',
+    'vm_compute comparison with the real EntityMeta / translator on random hierarchies; also _find_in_cache_ (loaded objects and unloaded seeds, ~1000 real lookups per run) and Attribute.get / collection iteration / unpickling class rules',
+    'tools/c27_scan.py: the one source fact taken from an ast scan on every run (Gen/C27AttrGet.v): in Attribute.get the value fetched by attr.load(obj) passes the seed guard before it is returned; the scan refuses a shape it does not recognise',
     'the harness tools/c27_impl.py: classes built with type(db.Entity)(name, bases, ns) on in-memory SQLite; isinstance condition read from q._translator.conditions',
     'Python issubclass / isinstance on the real classes as the specification side of the search',
     'SQL meaning of  column IN (values)  /  1 = 1  /  0 = 1  (executed on SQLite in the search; other dialects share this code and are not executed)',
@@ -475,7 +476,8 @@ LEVEL_TEXT = ('Machine-checked proof (Coq 8.16.1) over a model of Pony\'s entity
               'identity-map refinement, lookups by primary key through any class (loaded objects; unloaded seeds typed by any ancestor incl. sibling branches of a diamond since fix 8097451, any discriminator value incl. 0 / empty string) and '
               'Attribute.get (also after attr.load through a placeholder; flag read from the source on every run) give back the creation class. Items of many-to-many collections come out with their creation class (fix 50e342a). Two deviations (two sibling-typed '
               'references to one object in a session; unpickled references) are refuted by witnesses and recorded as findings.')
-LEVEL_NOTE = ('Trusted: Coq kernel + vm_compute; the hand-written model (no source translation) and its correspondence harness; SQL meaning of IN lists. Not covered by '
+LEVEL_NOTE = ('Trusted: Coq kernel + vm_compute; the hand-written model (one flag scanned from the source of Attribute.get, otherwise no source translation) and its correspondence harness; SQL meaning of IN lists; '
+              'two recorded findings remain (sibling-typed references to one object raise an unexpected class change; a reference of an unpickled object keeps the declared base class). Not covered by '
               'theorems: attribute/column sets of subclasses, composite keys, the NotImplementedError branch of class refinement (search only).')
-TECHNIQUE = 'Coq induction over definition order (structural recursion on the newest-first schema); vm_compute correspondence with the real EntityMeta and FuncIsinstanceMonad; end-to-end reload search on SQLite'
+TECHNIQUE = 'Coq induction over definition order (structural recursion on the newest-first schema); vm_compute correspondence with the real EntityMeta, FuncIsinstanceMonad and _find_in_cache_; ast scan of Attribute.get; end-to-end reload search on SQLite (select / get / navigation chains through placeholders / seeds / m2m / pickle / isinstance)'
 DESIGN_REF = 'DESIGN.md section 5, C27'
